@@ -25,7 +25,7 @@ func init() {
 			"(3b) exact-key Get/Delete/Insert on the mount tree by context-taking Router methods (Unmount, Remount) lead with <namespace of the context>.Path; inside the callbacks of walks over the mount tree (MountConflict's prefix and child-namespace checks) every comparison of a tree key, or a part cut from it, with a path uses an operand that leads with <namespace of the context>.Path as of the walk call (captured variables read flow-sensitively); " +
 			"(4b) a token's CubbyholeID is written only in TokenStore.create and only with base62.Random's result; the salt of the double-salted legacy cubbyhole key agrees between writer and reader: RouteEntry.SaltID salts with its MountEntry.UUID, CubbyholeBackend.saltUUID is written only in Core.setCoreBackend, only with the UUID field of the mount entry parameter and on the backend published as Core.cubbyholeBackend, and the token store's destroy/tidy paths recompute the key with that saltUUID; " +
 			"(5b) ACL.AllowOperation grants root privileges only across <context namespace>.HasParent(a.root) being true and looks rules up by <context namespace>.Path + request path; parsePaths puts the parsed policy's Namespace.Path in front of every rule path before the rule joins the policy and later rewrites keep that leading part, the parser stores its ns parameter as Policy.Namespace; in getApplicableGroupPolicies a policy of another namespace is appended only across the application mode differing from within_namespace_hierarchy or <policy namespace>.HasParent(<token namespace>) being true; the policy store's cache key contains the namespace UUID, every key given to the policy LRU comes out of cacheKey, Store.ACL fetches the names listed under a namespace id in ContextWithNamespace(NamespaceByID(that id)) and re-parses a templated policy in its own Namespace; " +
-			"(6b) SealManager.namespaceBarrierByLongestPrefix returns only the LongestPrefix match of barrierByNamespacePath for its path parameter (and the locked wrapper only that result); Core.switchedLockHandleRequest hands a request on (inline auth, handleCancelableRequest) only for the root namespace or across NamespaceSealed(<namespace resolved for the request>) being false, and the context it hands on carries that namespace.",
+			"(5c) every ExpirationManager.leaseView in a context-taking function is opened in namespace.FromContext of that context or in the namespace recorded in the lease entry handed in for persist/delete (one context-less restore helper tabled), never in a namespace parsed out of the lease ID; leaseEntry.namespace has a writer table and loadEntryInternal stamps the loaded entry with the context's namespace; (6b) SealManager.namespaceBarrierByLongestPrefix returns only the LongestPrefix match of barrierByNamespacePath for its path parameter (and the locked wrapper only that result); Core.switchedLockHandleRequest hands a request on (inline auth, handleCancelableRequest) only for the root namespace or across NamespaceSealed(<namespace resolved for the request>) being false, and the context it hands on carries that namespace.",
 		NotDecided: "which physical keys a given request touches (values); unmount histories; backends that keep their own references to storage beyond the request (plugin contract).",
 		Run:        runC12,
 	})
